@@ -96,7 +96,10 @@ Record state := mkState {
 
 Record params := mkParams {
   p_cap : nat;       (* defs.ForwarderMaxPendingChunksForAck *)
-  p_maxage : bool    (* maxDuration > 0 *)
+  p_maxage : bool;   (* maxDuration > 0 *)
+  p_fix : bool       (* true: the code as it is now - an ACK with an unknown id ends the session like a failed ACK read
+                        (abortConn, return); false: the ORIGINAL code, which 'continue'd to wait for the next chunk
+                        (finding C02-wrong-id-ack-stuck; kept only for C02_original_unknown_ack_stuck_refuted) *)
 }.
 
 Inductive event :=
@@ -517,7 +520,9 @@ Definition step (P : params) (s : state) (e : event) : option state :=
           | AId i =>
             if mem i (s_pending ss)
             then Some (h_add_ack (st_sess s (sess_acker ss (s_achan ss) (s_pending ss) (AAcked i))) k a nx)
-            else Some (h_add_ack (st_sess s (sess_acker ss (s_achan ss) (s_pending ss) AIdle)) k a nx)  (* unknown id: continue *)
+            else if p_fix P
+            then Some (h_add_ack (st_sess s (sess_end ss true)) k a nx)   (* unknown id: abortConn, return, deferred snapshot *)
+            else Some (h_add_ack (st_sess s (sess_acker ss (s_achan ss) (s_pending ss) AIdle)) k a nx)  (* ORIGINAL code: continue *)
           end
         else None
       | _ => None
